@@ -264,13 +264,17 @@ def array_gray_evaluated(rep: Report, fi: FuncInfo, fname: str, scalar: str) -> 
         rep.violation("GRAY-UTIL", fi, what, f"for the word {words[k]} the array form gives {got[k] if isinstance(got, list) and len(got) == len(want) else got!r}; {scalar} gives {want[k]}", node=fi.node)
 
 
+_FUNCS: Dict[str, ast.AST] = {}
+
+
 def evaluated_table(fi: FuncInfo, M: int, gray: bool, flag: str):
     """bit_patterns of order M as a list of label integers, from running the constructor body; or a reason string."""
     from ..frag import FragRaise, FragReturn, run_fragment
 
     b = M.bit_length() - 1
     try:
-        env = run_fragment(fi.body, {}, {flag: gray, "self.order": M, "self._bits_per_symbol": b, "self.bits_per_symbol": b}, max_steps=400000, materialise=True)
+        consts = {st_.targets[0].id: st_.value for st_ in fi.module.tree.body if isinstance(st_, ast.Assign) and len(st_.targets) == 1 and isinstance(st_.targets[0], ast.Name)}
+        env = run_fragment(fi.body, consts, {flag: gray, "self.order": M, "self._bits_per_symbol": b, "self.bits_per_symbol": b, "self.normalize": False}, max_steps=400000, materialise=True, funcs=dict(_FUNCS))
     except (Unfoldable, FragRaise) as exc:
         return str(exc) or type(exc).__name__
     except FragReturn:
@@ -278,7 +282,23 @@ def evaluated_table(fi: FuncInfo, M: int, gray: bool, flag: str):
     bp = env.get("bit_patterns")
     if not (isinstance(bp, list) and len(bp) == M and all(isinstance(r, list) and len(r) == b and all(x in (0, 1, 0.0, 1.0) for x in r) for r in bp)):
         return f"bit_patterns is not an {M} x {b} 0/1 table"
-    return [int("".join(str(int(x)) for x in r), 2) for r in bp]
+    labels = [int("".join(str(int(x)) for x in r), 2) for r in bp]
+    # physical position of point i: rank of its level (PAM) or of its angle (PSK / DPSK)
+    import cmath as _cm
+
+    pts = env.get("levels") if isinstance(env.get("levels"), list) else env.get("constellation")
+    positions = None
+    if isinstance(pts, list) and len(pts) == M and all(isinstance(z, (int, float, complex)) for z in pts):
+        if isinstance(env.get("levels"), list):
+            key = [complex(z).real for z in pts]
+        else:
+            key = [round((_cm.phase(complex(z)) + 2 * _cm.pi) % (2 * _cm.pi), 9) % (2 * _cm.pi) for z in pts]
+        order_ = sorted(range(M), key=lambda i: key[i])
+        if len({round(k_, 9) for k_ in key}) == M:
+            positions = [0] * M
+            for rank_, i in enumerate(order_):
+                positions[i] = rank_
+    return labels, positions
 
 
 def _qam_label_shape_listed(fi: FuncInfo) -> bool:
@@ -336,6 +356,8 @@ def qam_by_evaluation(repo: Repo, rep: Report, fi: FuncInfo) -> int:
 
 def rule_generated(repo: Repo, rep: Report) -> int:
     n = 0
+    _FUNCS.clear()
+    _FUNCS.update({nm: repo.func(UT, nm).node for nm in ("binary_to_gray", "gray_to_binary")})
     specs = [
         (f"{MD}/psk.py", "PSKModulator", "self.gray_coding", [4, 8, 16, 32, 64], True),
         (f"{MD}/dpsk.py", "DPSKModulator", "self.gray_coding", [2, 4, 8, 16], True),
@@ -353,21 +375,20 @@ def rule_generated(repo: Repo, rep: Report) -> int:
                 custom = int_fun(g[1], g[2])
                 try:
                     custom(3)
-                except Unfoldable as exc:
-                    rep.undecided("GENERATED-TABLE", fi, f"{cname}(gray_coding={gray}): label of index i = binary({unparse(g[1])})", f"label generator not evaluable ({exc})", node=node)
-                    n += 1
-                    continue
-                construct = f"{cname}(gray_coding={gray}): label of index i = binary({unparse(g[1])})"
-            elif g not in ("id", "gray"):
+                    construct = f"{cname}(gray_coding={gray}): label of index i = binary({unparse(g[1])})"
+                except Unfoldable:
+                    g, custom = None, None  # fall through to the evaluation of the whole constructor
+            if g is None or (isinstance(g, str) and g not in ("id", "gray")):
                 # unlisted construction: run the constructor body (own arithmetic) for every order and read the table
                 tables = {}
+                ptables = {}
                 why = None
                 for M in orders:
                     tb = evaluated_table(fi, M, gray, flag)
                     if isinstance(tb, str):
                         why = tb
                         break
-                    tables[M] = tb
+                    tables[M], ptables[M] = tb
                 if why is not None:
                     rep.undecided("GENERATED-TABLE", fi, construct, f"label generator not recognised and the table is not evaluable ({why})", node=node)
                     n += 1
@@ -377,12 +398,15 @@ def rule_generated(repo: Repo, rep: Report) -> int:
                 construct = f"{cname}(gray_coding={gray}): label table evaluated from the constructor body"
             # position permutation: are the physical positions re-indexed?
             perm = position_permutation(fi, atoms)
+            pos_tables = None
+            if perm is None and g == ("table",) and all(ptables.get(M) is not None for M in orders):
+                pos_tables, perm = ptables, "the evaluated level / angle order"
             if perm is None:
                 rep.undecided("GENERATED-TABLE", fi, construct, "physical positions are re-indexed in an unknown way")
                 n += 1
                 continue
             gfun = custom if custom is not None else ((lambda i: i) if g == "id" else gf2.gray)
-            pfun = {"id": (lambda i: i), "gray": gf2.gray}[perm]
+            pfun = (lambda i, _p=pos_tables: _p[_cur[0]][i]) if pos_tables is not None else {"id": (lambda i: i), "gray": gf2.gray}[perm]
             bad_orders = []
             for M in orders:
                 _cur[0] = M
@@ -399,9 +423,10 @@ def rule_generated(repo: Repo, rep: Report) -> int:
             n += 1
             if bad_orders:
                 M, why = bad_orders[0]
-                rep.violation("GENERATED-TABLE", fi, construct + f", positions re-indexed by {perm}", (f"for order {M} physically adjacent points do not differ in one bit ({why})" + (": labels and positions are both permuted, the permutations cancel" if perm == "gray" else "")) if (gray and why != "not a bijection") else f"order {M}: labels are {why}", node=node)
+                # the construct names the obligation, not the spelling: the same finding keeps its key across refactorings
+                rep.violation("GENERATED-TABLE", fi, f"{cname}(gray_coding={gray}): labels along the physical order of the points", f"[{construct.split(': ', 1)[-1]}, positions re-indexed by {perm}] " + ((f"for order {M} physically adjacent points do not differ in one bit ({why})" + (": labels and positions are both permuted, the permutations cancel" if perm == "gray" else "")) if (gray and why != "not a bijection") else f"order {M}: labels are {why}"), node=node)
             else:
-                rep.ok("GENERATED-TABLE", fi, construct + f", positions indexed by {perm}", f"bijective for orders {orders}" + ("; Gray along physical neighbours" if gray else ""), node=node)
+                rep.ok("GENERATED-TABLE", fi, f"{cname}(gray_coding={gray}): labels along the physical order of the points", f"[{construct.split(': ', 1)[-1]}, positions indexed by {perm}] bijective for orders {orders}" + ("; Gray along physical neighbours" if gray else ""), node=node)
     # QAM: per-axis Gray
     ci = repo.cls(f"{MD}/qam.py", "QAMModulator")
     fi = repo.method(ci, "_create_constellation")
